@@ -3,6 +3,8 @@ package drivers
 import (
 	"encoding/json"
 	"fmt"
+	"github.com/wormhole-foundation/example-near-light-client/types"
+	"github.com/wormhole-foundation/example-near-light-client/variables"
 	"math/big"
 	"strings"
 
@@ -297,6 +299,27 @@ func c04Run(req wrapReq, resp *drv.Response) error {
 			for _, lf := range data.Walk(&asg.VD) {
 				lf.Set(drv.RandBelow(rng, bigR))
 			}
+		}
+		// the alternative key reaches the circuit the way a proving request delivers it: as a JSON document through the repository's
+		// own readers (cmd/web-api.go: ReadVerifierOnlyCircuitDataFromRequest + DeserializeVerifierOnlyCircuitData), in a process that
+		// has already read the build-time key
+		{
+			doc := map[string]any{}
+			caps := make([]string, 16)
+			for _, lf := range data.Walk(&asg.VD) {
+				var n int
+				if k, _ := fmt.Sscanf(lf.Path, "ConstantSigmasCap[%d]", &n); k == 1 {
+					caps[n] = lf.Get().String()
+				} else {
+					doc["circuit_digest"] = lf.Get().String()
+				}
+			}
+			doc["constants_sigmas_cap"] = caps
+			b, err := json.Marshal(doc)
+			if err != nil {
+				return err
+			}
+			asg.VD = variables.DeserializeVerifierOnlyCircuitData(types.ReadVerifierOnlyCircuitDataFromRequest(b))
 		}
 		cfg := &engine.Config{Mode: engine.Native}
 		var err error
